@@ -33,6 +33,8 @@ def main():
     finally:
         subprocess.run(["git", "-C", REPO, "checkout", "--", "."])
         subprocess.run(["git", "-C", REPO, "clean", "-fdq"])
+        # facts regenerated from the changed tree and the evidence of this run are not the unchanged tree's
+        subprocess.run(["git", "-C", VERIF, "checkout", "--", "lean/ConfModel/Generated"] + [f"evidence/{p}.json" for p in props], capture_output=True)
     print(json.dumps({"seed": sid, "tier": tier, "results": res}))
     ev = os.path.join(d, "eval.json")
     allr = json.load(open(ev)) if os.path.exists(ev) else {}
